@@ -2,6 +2,7 @@
 tagged-union conversion (TABLE), adaptors. DESIGN.md section 4, C19."""
 import re
 from .common import *
+from cpv.ceval import Evaluator, Unknown
 
 UNIT = "src/CppUTestExt/MockSupport_c.cpp"
 TABLES = {"gMockSupport": "MockSupport_c", "gExpectedCall": "MockExpectedCall_c", "gActualCall": "MockActualCall_c"}
@@ -193,15 +194,31 @@ def check(ctx, run):
             continue
         tbl = "gActualCall" if "Actual" in f.ret else "gExpectedCall"
         cur = "actualCall" if "Actual" in f.ret else "expectedCall"
-        ok = True
+        CUR, NEXT, TBL = 9000, 9100, 777000
+        seen = []
+        hooks = {}
+        for g_, c in ([(f, c) for c in f.calls()] + [(h_, c) for c0 in f.calls() for h_ in [prog.functions.get((c0.get("callee") or {}).get("mn"))] if h_ is not None and h_.file == f.file and not h_.cls for c in h_.calls()]):
+            nm = prog.callee_name(g_, c) or ""
+            if nm.startswith(("MockExpectedCall::", "MockActualCall::", "MockSupport::")):
+                hooks[nm] = (lambda *a_, nm=nm: (seen.append((nm, a_[0] if a_ else None)), NEXT)[1])
+        env = {cur: CUR, tbl: TBL, "currentMockSupport": 8000, "gActualCall": TBL + 1 if tbl != "gActualCall" else TBL, "gExpectedCall": TBL + 2 if tbl != "gExpectedCall" else TBL}
+        env.update({q["name"]: 5 for q in f.params})
+        ev = Evaluator(prog, f, env=env, calls=hooks)
+        ev.pass_object = True
         why = ""
-        for p in enumerate_paths(f):
-            a = [l for l, r, n in assignments(f, p)]
-            r = render(f, f.node(p.ret.get("value"))) if p.ret is not None and p.ret.get("value") is not None else None
-            if a != [cur] or r != "&" + tbl:
-                ok = False
-                why = "assigns %s and returns %s on path [%s]" % (a, r, p.describe(f))
-        run.ob("R2", "%s keeps the chained call object and returns &%s" % (name, tbl), f.site, ok, witness=why or "ok", what=why)
+        try:
+            ev.run_blocks(f.entry, max_steps=300)
+            r = getattr(ev, "ret", None)
+            if [o for nm, o in seen] not in ([CUR], [8000]) or (seen and seen[0][0].startswith("MockSupport::") != (seen[0][1] == 8000)):
+                why = "the C++ methods are invoked on %s; expected one call on the current call object (or on the current mock support for the call-creating entry points)" % ([o for nm, o in seen],)
+            elif ev.env.get(cur) != NEXT:
+                why = "the current call object is %s after the call, expected the object the C++ method returned" % (ev.env.get(cur),)
+            elif r != TBL:
+                why = "returns %s, expected &%s" % (r, tbl)
+        except Unknown as u:
+            why = "cannot be folded: %s" % u
+        ok = not why
+        run.ob("R2", "%s keeps the chained call object and returns &%s (folded)" % (name, tbl), f.site, ok, witness=why or "ok", what=why)
 
     # ---------------- R3 ----------------------------------------------------
     conv = prog.fn("getMockValueCFromNamedValue")
@@ -240,9 +257,19 @@ def check(ctx, run):
     # ---------------- R4 ----------------------------------------------------
     f = prog.fn("MockCFunctionComparatorNode::isEqual")
     run.analysed(f)
-    rets = [render(f, f.node(n.get("value"))) for n in f.walk() if n["k"] == "ReturnStmt"]
     pn = [p["name"] for p in f.params]
-    run.ob("R4", "C comparator forwards (object1, object2) in order and converts != 0", f.site, rets == ["(equal_(%s, %s) != 0)" % (pn[0], pn[1])], witness=rets)
+    okc, wit = True, []
+    for answer in (0, 1, 2, -1):
+        seen = []
+        ev = Evaluator(prog, f, env={pn[0]: 11, pn[1]: 22}, calls={"MockCFunctionComparatorNode::equal_": lambda *a_, answer=answer: (seen.append(a_), answer)[1]})
+        try:
+            ev.run_blocks(f.entry, max_steps=100)
+            r = getattr(ev, "ret", None)
+        except Unknown as u:
+            r = "unknown: %s" % u
+        wit.append({"C function answers": answer, "called with": [list(x) for x in seen], "isEqual": r})
+        okc = okc and seen == [(11, 22)] and r == (1 if answer != 0 else 0)
+    run.ob("R4", "C comparator folded: forwards (object1, object2) in order and converts the int answer with != 0", f.site, okc, witness=wit)
     f = prog.fn("MockCFunctionCopierNode::copy")
     run.analysed(f)
     cs = [render(f, c) for c in f.calls()]
